@@ -654,12 +654,13 @@ def pushEval (defs : ListDefs) (s : Core) (o : Obj) : Out Core :=
 def popEval (s : Core) : Out (Obj × Core) :=
   match s.evalStack with
   | o :: rest => .ok (o, { s with evalStack := rest })
-  | [] => .panic "story_state.rs:pop_evaluation_stack"
+  | [] => .invalid "Evaluation stack is empty: nothing to pop."
 
 /-- `pop_evaluation_stack_multiple(n)`: in push order. -/
 def popEvalMultiple (s : Core) (n : Nat) : Out (List Obj × Core) :=
   if n ≤ s.evalStack.length then .ok ((s.evalStack.take n).reverse, { s with evalStack := s.evalStack.drop n })
-  else .panic "story_state.rs:pop_evaluation_stack_multiple"
+  else .invalid ("Evaluation stack holds " ++ toString s.evalStack.length ++ " values but "
+    ++ toString n ++ " were expected.")
 
 /-! ### variables (variables_state.rs) -/
 
